@@ -382,7 +382,11 @@ impl KeyValueStore {
             log_batch.insert(KeyValueRef::from(entry))?;
         }
         self.poison(log.append(log_batch))?;
+        #[cfg(blue_verif)]
+        crate::verif::yield_point(2);
         self.poison(memtable.write(&mut batch))?;
+        #[cfg(blue_verif)]
+        crate::verif::yield_point(3);
         drop(memtable);
         drop(log);
         let mut state = self.state.lock().unwrap();
@@ -402,6 +406,8 @@ impl KeyValueStore {
             let version = self.tree.take_snapshot();
             (mem, imm, version, state.seq_no)
         };
+        #[cfg(blue_verif)]
+        crate::verif::yield_point(4);
         *is_tombstone = false;
         let ret = mem.load(key, timestamp, is_tombstone)?;
         if ret.is_some() || *is_tombstone {
@@ -429,6 +435,8 @@ impl KeyValueStore {
             let version = self.tree.take_snapshot();
             (mem, imm, version, state.seq_no)
         };
+        #[cfg(blue_verif)]
+        crate::verif::yield_point(5);
         let mut cursors: Vec<Box<dyn Cursor>> = Vec::with_capacity(3);
         let mut mem_scan = mem.range_scan(start_bound, end_bound, timestamp)?;
         mem_scan.seek_to_first()?;
